@@ -21,6 +21,10 @@ _RE_MD = re.compile(r'^!(\d+) = (?:distinct )?!(\w+)\((.*)\)\s*$')
 _RE_ATTRGRP = re.compile(r'^attributes #(\d+) = \{(.*)\}\s*$')
 
 
+def _is_type_name(o):
+    return o.startswith('%"') or o.startswith(("%struct.", "%class.", "%union.", "%\"struct", "%\"class", "%\"union"))
+
+
 def _strip_name(n):
     n = n[1:]
     if n.startswith('"'):
@@ -364,7 +368,7 @@ def _parse_call(inst, body):
             args.append(a)
             continue
         toks = a.split()
-        args.append(toks[-1] if toks and "(" not in a else a)
+        args.append(toks[-1] if toks and not a.rstrip().endswith(")") else a)
     inst.args = args
     if name.startswith("@"):
         inst.callee = _strip_name(name)
@@ -505,7 +509,7 @@ def parse_module(path, name):
         core = body.split(", !dbg")[0]
         if op in ("call", "invoke"):
             _parse_call(inst, toks[1] if len(toks) > 1 else "")
-        inst.ops = _RE_SSA.findall(core.split(" = ", 1)[-1]) if True else []
+        inst.ops = [o for o in _RE_SSA.findall(core) if not _is_type_name(o)]
         if op == "br":
             inst.succs = [x[1:].strip('"') for x in re.findall(r'label (%[-\w.$]+|%"[^"]+")', core)]
         elif op == "switch":
